@@ -103,6 +103,25 @@ def run(facts, tr, rep):
         rep.ob("C10.MISS-ONLY", skey(b, "inner-call#%d" % ordinal(gb, c)), ok and not reach and not gb.in_cycle(c.bb) and len(sites) == 1, c.where(),
                "the wrapped service is called only on a miss (None edge of store.get), exactly once" if ok and not reach else
                "the wrapped service can be called although the store answered the key (or without asking the store)")
+    # LOOKUP-ONCE: the store is looked up (which counts as a use for LRU / LFU) once per request, before the wrapped
+    # call; after the wrapped call has been made no further lookup happens on behalf of this request
+    for ch_ in descendants(facts, sb):
+        gch_ = graph(ch_)
+        ic_ = [x for x in gch_.calls() if x.def_ == "tower_service::Service::call" and x.self_kind in ("param", "ref_param")]
+        later = []
+        starts_ = [x.target for x in ic_ if x.target is not None]
+        # ... or after the wrapped call's future completed, when the call is made before the response future is built
+        starts_ += [a.ready_bb for a in gch_.awaits() if a.ready_bb is not None and "tower_service::Service" in a.fut_ty["s"] and "::Future" in a.fut_ty["s"]]
+        for st_ in starts_:
+            r_ = gch_.reach([st_], kinds=(N,))
+            later += [y for y in gch_.calls() if y.bb in r_ and is_store_get(y)]
+        if starts_:
+            ic_ = ic_ or [None]
+        if starts_:
+            rep.ob("C10.MISS-ONLY", skey(ch_, "lookup-once"), not later, later[0].where() if later else gch_.where(starts_[0]),
+                   "the store is not looked up again after the wrapped call" if not later else
+                   "the store is looked up again after the wrapped call: for the LRU / LFU policies that counts as another use of the key, "
+                   "so one request skews the victim order")
     # a hit returns the stored payload
     hit_ok = False
     for ch in descendants(facts, sb):
